@@ -31,6 +31,8 @@ pub fn c01(out: &mut Out, ex: &mut Exec, seed: u64, thorough: bool) {
     NON_ASCII_LITERALS.with(|c| c.set(true));
     let mut rng = Rng::new(seed); let n = if thorough { 60_000 } else { 3_000 }; let mut seen = HashSet::new();
     for i in 0..n {
+        // every fourth program uses labels with non-ASCII letters in both cases (keys go through Unicode upper-casing)
+        NON_ASCII_LABELS.with(|c| c.set(i % 4 == 3));
         let stmts = gen_single(&mut rng, 30, true);
         let exp = expected(&stmts);
         let text = render(&mut rng, &stmts);
@@ -59,6 +61,8 @@ pub fn c01(out: &mut Out, ex: &mut Exec, seed: u64, thorough: bool) {
 pub fn c02(out: &mut Out, ex: &mut Exec, seed: u64, thorough: bool, check_spans: bool) {
     let mut rng = Rng::new(seed); let n = if thorough { 80_000 } else { 5_000 }; let mut seen = HashSet::new();
     for i in 0..n {
+        // every fourth program uses labels with non-ASCII letters (not in the span-checking variant: finding F21 has its own stream)
+        if !check_spans { NON_ASCII_LABELS.with(|c| c.set(i % 4 == 3)); }
         let mut stmts = gen_single(&mut rng, 14, true);
         let nf = match i % 5 { 0 => 0, 1 | 2 | 3 => 1, _ => 2 + rng.below(2) };
         let mut faults = vec![]; for _ in 0..nf { faults.push(inject_fault(&mut rng, &mut stmts)); }
